@@ -7,7 +7,9 @@ import (
 
 	"github.com/golang/protobuf/proto"
 	"github.com/xuperchain/xupercore/bcs/ledger/xledger/state/utxo/txhash"
+	txn "github.com/xuperchain/xupercore/bcs/ledger/xledger/tx"
 	pb "github.com/xuperchain/xupercore/bcs/ledger/xledger/xldgpb"
+	"github.com/xuperchain/xupercore/protos"
 
 	"verif/harness/fx"
 )
@@ -24,6 +26,7 @@ type opLine struct {
 	Op  string          `json:"op"`
 	T   json.RawMessage `json:"t"`
 	M   json.RawMessage `json:"m"`
+	R   string // rider of a "cb" op
 	Hon bool
 }
 
@@ -43,6 +46,62 @@ type mutOut struct {
 	M       json.RawMessage `json:"m"`
 	Res     string          `json:"res"`
 	Applied bool            `json:"applied"`
+}
+
+type cbOut struct {
+	Tr  int    `json:"tr"`
+	I   int    `json:"i"`
+	Op  string `json:"op"`
+	R   string `json:"r"`
+	Res string `json:"res"`
+}
+
+// coinbaseRider: on a fresh fixture chain a peer block [award transaction + rider] is confirmed and played.
+// rider "write": the award transaction also carries a read / write set that rewrites the rule of account A
+// (k2 and k3) to "kx alone". "ok": the block was played (and, with a rider, the rule changed).
+func coinbaseRider(name, rider string) (string, error) {
+	w, err := newWorld(name)
+	if err != nil {
+		return "", err
+	}
+	defer w.node.Drop()
+	l, s := w.node.Ledger, w.node.State
+	const acctBucket = "XCAccount"
+	a := w.name("A")
+	w.seq++
+	aw, err := txn.GenerateAwardTx(w.miner.Address, "0", []byte("award-rider"))
+	if err != nil {
+		return "", err
+	}
+	want := thresholdACL(map[string]float64{w.key["kx"].Address: 1}, 1)
+	if rider == "write" {
+		cur, err := s.CreateXMReader().Get(acctBucket, []byte(a))
+		if err != nil {
+			return "", err
+		}
+		aw.TxInputsExt = []*protos.TxInputExt{{Bucket: acctBucket, Key: []byte(a), RefTxid: cur.RefTxid, RefOffset: cur.RefOffset}}
+		aw.TxOutputsExt = []*protos.TxOutputExt{{Bucket: acctBucket, Key: []byte(a), Value: want}}
+		if aw.Txid, err = txhash.MakeTransactionID(aw); err != nil {
+			return "", err
+		}
+	}
+	blk, err := l.FormatMinerBlock([]*pb.Transaction{aw}, []byte(w.miner.Address), w.miner.Priv, w.seq, 0, 0, s.GetLatestBlockid(), 0, s.GetTotal(), nil, nil, l.GetMeta().TrunkHeight+1)
+	if err != nil {
+		return "", err
+	}
+	if cs := l.ConfirmBlock(blk, false); !cs.Succ {
+		return "rej", nil
+	}
+	if err := s.PlayAndRepost(blk.Blockid, false, false); err != nil {
+		return "rej", nil
+	}
+	if rider == "write" {
+		after, err := w.node.Acl.GetAccountACL(a)
+		if err != nil || after.GetAksWeight()[w.key["kx"].Address] != 1 {
+			return "rej", nil
+		}
+	}
+	return "ok", nil
 }
 
 func whyClass(why string) string {
@@ -98,6 +157,15 @@ func casesCmd(args []string) error {
 	for tr, beh := range behs {
 		for i, op := range beh {
 			n++
+			if op.Op == "cb" {
+				res, err := coinbaseRider(fmt.Sprintf("c07cb%d-%d", seed(), n), op.R)
+				if err != nil {
+					return err
+				}
+				st.ByRes["cb:"+op.R+":"+res]++
+				tw.Emit(cbOut{tr, i, "cb", op.R, res})
+				continue
+			}
 			var t aTx
 			if err := json.Unmarshal(op.T, &t); err != nil {
 				return fmt.Errorf("behaviour %d op %d: %v", tr, i, err)
@@ -202,6 +270,11 @@ func loadOps(dir string) ([][]opLine, error) {
 		ops := []opLine{}
 		for _, e := range beh {
 			o := opLine{Op: e.Str("op")}
+			if o.Op == "cb" {
+				o.R = e.Str("r")
+				ops = append(ops, o)
+				continue
+			}
 			if o.Op != "case" && o.Op != "mut" {
 				continue
 			}
